@@ -268,8 +268,10 @@ class Program:
         pkg_bindings = {short(n_): module_bindings(t_, short(n_), k_) for n_, _p, _s, t_, k_ in parsed}
         imported = {a.name for _n, _p, _s, t_, _k in parsed for st_ in ast.walk(t_) if isinstance(st_, ast.ImportFrom) for a in st_.names}
         pkg_funcs = {k: (_copy.deepcopy(f), _copy.deepcopy(b)) for k, (f, b) in pkg_funcs.items()}
+        attr_by_module = {n_: {x.attr for x in ast.walk(t_) if isinstance(x, ast.Attribute)} for n_, _p, _s, t_, _k in parsed}
         for name, path, src, tree, is_pkg in parsed:
-            tree, inl = inline_new_helpers(tree, short(name), ambiguous, pkg_funcs, pkg_meths, is_pkg, imported, pkg_bindings)
+            elsewhere = set().union(*[v for k_, v in attr_by_module.items() if k_ != name]) if len(attr_by_module) > 1 else set()
+            tree, inl = inline_new_helpers(tree, short(name), ambiguous, pkg_funcs, pkg_meths, is_pkg, imported | elsewhere, pkg_bindings)
             if inl:
                 self.inlined[name] = inl
             tree = canonicalise(tree, short(name))
